@@ -1301,6 +1301,18 @@ func evalGlobalWith(p *Program, rel, name string, ext func(string, []aval) (aval
 				addV(*op)
 			}
 		}
+		// a map literal: the updates that fill it
+		if mm, ok := v.(*ssa.MakeMap); ok {
+			if refs := mm.Referrers(); refs != nil {
+				for _, r := range *refs {
+					if mu, ok := r.(*ssa.MapUpdate); ok && mu.Map == ssa.Value(mm) {
+						set[mu] = true
+						addV(mu.Key)
+						addV(mu.Value)
+					}
+				}
+			}
+		}
 		// memory the value is read from: stores into allocs (composite literals) it refers to
 		if a, ok := v.(*ssa.Alloc); ok {
 			var viaAddr func(addr ssa.Value)
